@@ -42,6 +42,9 @@ pub struct CaseFile {
     pub profile: String,
     pub what_fails: String,
     pub case: Case,
+    /// provenance: VERIF_SEED, run index and derived run seed of the run that found it
+    #[serde(default)]
+    pub found_by: serde_json::Value,
 }
 
 pub struct CaseResult {
